@@ -190,11 +190,11 @@ package forwarder
 //@   requires g != nil && g.link != nil && g.link.conn != nil && g.bsnl != nil && g.bsnl.handler != nil && req != nil
 //@   modifies *
 //@   serves C13 C02 C07 C05
-//@   at call append#1:
+//@   at call append~FAR_APPLY_ACTION:
 //@     assert [act]  len(arg1) == 1 && arg1[0].Type == gtp5gnl.FAR_APPLY_ACTION && arg1[0].Value == iface(nl.AttrU16(act.Flags))
-//@   at call append#2:
+//@   at call append~FAR_FORWARDING_PARAMETER:
 //@     assert [fp]   len(arg1) == 1 && arg1[0].Type == gtp5gnl.FAR_FORWARDING_PARAMETER && arg1[0].Value == iface(v)
-//@   at call append#3:
+//@   at call append~FAR_BAR_ID:
 //@     reached [emit] when i.Type == ie.BARID && ok(i.BARID())
 //@     assert [bar]  len(arg1) == 1 && arg1[0].Type == gtp5gnl.FAR_BAR_ID && arg1[0].Value == iface(nl.AttrU8(v))
 //@   after call UpdateFAR:
@@ -219,10 +219,10 @@ package forwarder
 //@   serves C03 C07 C05
 //@   loop range(ies):
 //@     modifies nothing
-//@   at call append#1:
+//@   at call append~BAR_DOWNLINK_DATA_NOTIFICATION_DELAY:
 //@     reached [emit] when i.Type == ie.DownlinkDataNotificationDelay && ok(i.DownlinkDataNotificationDelay())
 //@     assert [delay] len(arg1) == 1 && arg1[0].Type == gtp5gnl.BAR_DOWNLINK_DATA_NOTIFICATION_DELAY && arg1[0].Value == iface(nl.AttrU8(uint8(v / 50000000)))
-//@   at call append#2:
+//@   at call append~BAR_BUFFERING_PACKETS_COUNT:
 //@     reached [emit] when i.Type == ie.SuggestedBufferingPacketsCount && ok(i.SuggestedBufferingPacketsCount())
 //@     assert [count] len(arg1) == 1 && arg1[0].Type == gtp5gnl.BAR_BUFFERING_PACKETS_COUNT && arg1[0].Value == iface(nl.AttrU16(v))
 //@   at call CreateBAROID:
@@ -235,10 +235,10 @@ package forwarder
 //@   serves C03 C07 C05
 //@   loop range(ies):
 //@     modifies nothing
-//@   at call append#1:
+//@   at call append~BAR_DOWNLINK_DATA_NOTIFICATION_DELAY:
 //@     reached [emit] when i.Type == ie.DownlinkDataNotificationDelay && ok(i.DownlinkDataNotificationDelay())
 //@     assert [delay] len(arg1) == 1 && arg1[0].Type == gtp5gnl.BAR_DOWNLINK_DATA_NOTIFICATION_DELAY && arg1[0].Value == iface(nl.AttrU8(uint8(v / 50000000)))
-//@   at call append#2:
+//@   at call append~BAR_BUFFERING_PACKETS_COUNT:
 //@     reached [emit] when i.Type == ie.SuggestedBufferingPacketsCount && ok(i.SuggestedBufferingPacketsCount())
 //@     assert [count] len(arg1) == 1 && arg1[0].Type == gtp5gnl.BAR_BUFFERING_PACKETS_COUNT && arg1[0].Value == iface(nl.AttrU16(v))
 //@   at call UpdateBAROID:
@@ -256,13 +256,13 @@ package forwarder
 //@   ensures [err] (err == nil) == ok(i.VolumeThreshold())
 //@   modifies nothing
 //@   serves C03 C07
-//@   at call append#1:
+//@   at call append~URR_VOLUME_THRESHOLD_FLAG:
 //@     assert [flag]  len(arg0) == 0 && len(arg1) == 1 && arg1[0].Type == gtp5gnl.URR_VOLUME_THRESHOLD_FLAG && arg1[0].Value == iface(nl.AttrU8(v.Flags))
-//@   at call append#2:
+//@   at call append~URR_VOLUME_THRESHOLD_TOVOL:
 //@     assert [tovol] v.Flags & 1 != 0 && len(arg1) == 1 && arg1[0].Type == gtp5gnl.URR_VOLUME_THRESHOLD_TOVOL && arg1[0].Value == iface(nl.AttrU64(v.TotalVolume))
-//@   at call append#3:
+//@   at call append~URR_VOLUME_THRESHOLD_UVOL:
 //@     assert [ulvol] v.Flags & 2 != 0 && len(arg1) == 1 && arg1[0].Type == gtp5gnl.URR_VOLUME_THRESHOLD_UVOL && arg1[0].Value == iface(nl.AttrU64(v.UplinkVolume))
-//@   at call append#4:
+//@   at call append~URR_VOLUME_THRESHOLD_DVOL:
 //@     assert [dlvol] v.Flags & 4 != 0 && len(arg1) == 1 && arg1[0].Type == gtp5gnl.URR_VOLUME_THRESHOLD_DVOL && arg1[0].Value == iface(nl.AttrU64(v.DownlinkVolume))
 //@ func (g *Gtp5g) newVolumeQuota(i *ie.IE) (attrs nl.AttrList, err error)
 //@   locals attrs:nl.AttrList | v:*ie.VolumeQuotaFields | err:error
@@ -271,13 +271,13 @@ package forwarder
 //@   ensures [err] (err == nil) == ok(i.VolumeQuota())
 //@   modifies nothing
 //@   serves C03 C07
-//@   at call append#1:
+//@   at call append~URR_VOLUME_QUOTA_FLAG:
 //@     assert [flag]  len(arg0) == 0 && len(arg1) == 1 && arg1[0].Type == gtp5gnl.URR_VOLUME_QUOTA_FLAG && arg1[0].Value == iface(nl.AttrU8(v.Flags))
-//@   at call append#2:
+//@   at call append~URR_VOLUME_QUOTA_TOVOL:
 //@     assert [tovol] v.Flags & 1 != 0 && len(arg1) == 1 && arg1[0].Type == gtp5gnl.URR_VOLUME_QUOTA_TOVOL && arg1[0].Value == iface(nl.AttrU64(v.TotalVolume))
-//@   at call append#3:
+//@   at call append~URR_VOLUME_QUOTA_UVOL:
 //@     assert [ulvol] v.Flags & 2 != 0 && len(arg1) == 1 && arg1[0].Type == gtp5gnl.URR_VOLUME_QUOTA_UVOL && arg1[0].Value == iface(nl.AttrU64(v.UplinkVolume))
-//@   at call append#4:
+//@   at call append~URR_VOLUME_QUOTA_DVOL:
 //@     assert [dlvol] v.Flags & 4 != 0 && len(arg1) == 1 && arg1[0].Type == gtp5gnl.URR_VOLUME_QUOTA_DVOL && arg1[0].Value == iface(nl.AttrU64(v.DownlinkVolume))
 
 //@ func (g *Gtp5g) CreateURR(lSeid uint64, req *ie.IE) (err error)
@@ -287,19 +287,19 @@ package forwarder
 //@   serves C03 C07 C15 C05
 //@   loop range(ies):
 //@     modifies rptTrig.*
-//@   at call append#1:
+//@   at call append~URR_MEASUREMENT_METHOD:
 //@     reached [emit] when i.Type == ie.MeasurementMethod && ok(i.MeasurementMethod())
 //@     assert [method] len(arg1) == 1 && arg1[0].Type == gtp5gnl.URR_MEASUREMENT_METHOD && arg1[0].Value == iface(nl.AttrU8(measureMethod))
-//@   at call append#2:
+//@   at call append~URR_REPORTING_TRIGGER:
 //@     assert [trigger] len(arg1) == 1 && arg1[0].Type == gtp5gnl.URR_REPORTING_TRIGGER && arg1[0].Value == iface(nl.AttrU32(rptTrig.Flags))
-//@   at call append#4:
+//@   at call append~URR_MEASUREMENT_INFO:
 //@     reached [emit] when i.Type == ie.MeasurementInformation && ok(i.MeasurementInformation())
 //@     assert [info]   len(arg1) == 1 && arg1[0].Type == gtp5gnl.URR_MEASUREMENT_INFO && arg1[0].Value == iface(nl.AttrU64(uint64(v)))
-//@   at call append#5:
+//@   at call append~URR_VOLUME_THRESHOLD:
 //@     assert [threshold] len(arg1) == 1 && arg1[0].Type == gtp5gnl.URR_VOLUME_THRESHOLD && arg1[0].Value == iface(v)
-//@   at call append#6:
+//@   at call append~URR_VOLUME_QUOTA:
 //@     assert [quota]  len(arg1) == 1 && arg1[0].Type == gtp5gnl.URR_VOLUME_QUOTA && arg1[0].Value == iface(v)
-//@   at call append#3:
+//@   at call append~URR_MEASUREMENT_PERIOD:
 //@     assert [period] len(arg1) == 1 && arg1[0].Type == gtp5gnl.URR_MEASUREMENT_PERIOD && arg1[0].Value == iface(nl.AttrU32(uint32(measurePeriod / 1000000000)))
 //@   at call AddPeriodReportTimer:
 //@     assert [reg]   rptTrig.Flags & 1 != 0 && arg0 == lSeid && arg1 == urrid && arg2 == measurePeriod && measurePeriod > 0
@@ -314,19 +314,19 @@ package forwarder
 //@                     ((val(req.ReportingTriggers())[0] & 1 != 0) == (RuleKey(lSeid, 4, uint64(val(req.URRID()))) in PERIOREQ))
 //@   modifies *
 //@   serves C03 C07 C05
-//@   at call append#1:
+//@   at call append~URR_MEASUREMENT_METHOD:
 //@     reached [emit] when i.Type == ie.MeasurementMethod && ok(i.MeasurementMethod())
 //@     assert [method] len(arg1) == 1 && arg1[0].Type == gtp5gnl.URR_MEASUREMENT_METHOD && arg1[0].Value == iface(nl.AttrU8(v))
-//@   at call append#2:
+//@   at call append~URR_REPORTING_TRIGGER:
 //@     assert [trigger] len(arg1) == 1 && arg1[0].Type == gtp5gnl.URR_REPORTING_TRIGGER && arg1[0].Value == iface(nl.AttrU32(rptTrig.Flags))
-//@   at call append#4:
+//@   at call append~URR_MEASUREMENT_INFO:
 //@     reached [emit] when i.Type == ie.MeasurementInformation && ok(i.MeasurementInformation())
 //@     assert [info]   len(arg1) == 1 && arg1[0].Type == gtp5gnl.URR_MEASUREMENT_INFO && arg1[0].Value == iface(nl.AttrU64(uint64(v)))
-//@   at call append#5:
+//@   at call append~URR_VOLUME_THRESHOLD:
 //@     assert [threshold] len(arg1) == 1 && arg1[0].Type == gtp5gnl.URR_VOLUME_THRESHOLD && arg1[0].Value == iface(v)
-//@   at call append#6:
+//@   at call append~URR_VOLUME_QUOTA:
 //@     assert [quota]  len(arg1) == 1 && arg1[0].Type == gtp5gnl.URR_VOLUME_QUOTA && arg1[0].Value == iface(v)
-//@   at call append#3:
+//@   at call append~URR_MEASUREMENT_PERIOD:
 //@     reached [emit] when i.Type == ie.MeasurementPeriod && ok(i.MeasurementPeriod())
 //@     assert [period] len(arg1) == 1 && arg1[0].Type == gtp5gnl.URR_MEASUREMENT_PERIOD && arg1[0].Value == iface(nl.AttrU32(uint32(v / 1000000000)))
 //@   at call UpdateURROID:
@@ -363,33 +363,33 @@ package forwarder
 //@   serves C03 C07 C05
 //@   loop range(ies):
 //@     modifies nothing
-//@   at call append#1:
+//@   at call append~QER_CORR_ID:
 //@     reached [emit] when i.Type == ie.QERCorrelationID && ok(i.QERCorrelationID())
 //@     assert [corr] len(arg1) == 1 && arg1[0].Type == gtp5gnl.QER_CORR_ID && arg1[0].Value == iface(nl.AttrU32(v))
-//@   at call append#2:
+//@   at call append~QER_GATE:
 //@     reached [emit] when i.Type == ie.GateStatus && ok(i.GateStatus())
 //@     assert [gate] len(arg1) == 1 && arg1[0].Type == gtp5gnl.QER_GATE && arg1[0].Value == iface(nl.AttrU8(v))
-//@   at call append#3:
+//@   at call append~QER_MBR:
 //@     reached [emit] when i.Type == ie.MBR && ok(i.MBRUL()) && ok(i.MBRDL())
 //@     assert [mbr]  len(arg1) == 1 && arg1[0].Type == gtp5gnl.QER_MBR && typeis(arg1[0].Value, nl.AttrList) && len(arg1[0].Value.(nl.AttrList)) == 4 &&
 //@                   arg1[0].Value.(nl.AttrList)[0].Type == gtp5gnl.QER_MBR_UL_HIGH32 && arg1[0].Value.(nl.AttrList)[0].Value == iface(nl.AttrU32(uint32(ul >> 8))) &&
 //@                   arg1[0].Value.(nl.AttrList)[1].Type == gtp5gnl.QER_MBR_UL_LOW8 && arg1[0].Value.(nl.AttrList)[1].Value == iface(nl.AttrU8(uint8(ul))) &&
 //@                   arg1[0].Value.(nl.AttrList)[2].Type == gtp5gnl.QER_MBR_DL_HIGH32 && arg1[0].Value.(nl.AttrList)[2].Value == iface(nl.AttrU32(uint32(dl >> 8))) &&
 //@                   arg1[0].Value.(nl.AttrList)[3].Type == gtp5gnl.QER_MBR_DL_LOW8 && arg1[0].Value.(nl.AttrList)[3].Value == iface(nl.AttrU8(uint8(dl)))
-//@   at call append#4:
+//@   at call append~QER_GBR:
 //@     reached [emit] when i.Type == ie.GBR && ok(i.GBRUL()) && ok(i.GBRDL())
 //@     assert [gbr]  len(arg1) == 1 && arg1[0].Type == gtp5gnl.QER_GBR && typeis(arg1[0].Value, nl.AttrList) && len(arg1[0].Value.(nl.AttrList)) == 4 &&
 //@                   arg1[0].Value.(nl.AttrList)[0].Type == gtp5gnl.QER_GBR_UL_HIGH32 && arg1[0].Value.(nl.AttrList)[0].Value == iface(nl.AttrU32(uint32(ul >> 8))) &&
 //@                   arg1[0].Value.(nl.AttrList)[1].Type == gtp5gnl.QER_GBR_UL_LOW8 && arg1[0].Value.(nl.AttrList)[1].Value == iface(nl.AttrU8(uint8(ul))) &&
 //@                   arg1[0].Value.(nl.AttrList)[2].Type == gtp5gnl.QER_GBR_DL_HIGH32 && arg1[0].Value.(nl.AttrList)[2].Value == iface(nl.AttrU32(uint32(dl >> 8))) &&
 //@                   arg1[0].Value.(nl.AttrList)[3].Type == gtp5gnl.QER_GBR_DL_LOW8 && arg1[0].Value.(nl.AttrList)[3].Value == iface(nl.AttrU8(uint8(dl)))
-//@   at call append#5:
+//@   at call append~QER_QFI:
 //@     reached [emit] when i.Type == ie.QFI && ok(i.QFI())
 //@     assert [qfi]  len(arg1) == 1 && arg1[0].Type == gtp5gnl.QER_QFI && arg1[0].Value == iface(nl.AttrU8(v))
-//@   at call append#6:
+//@   at call append~QER_RQI:
 //@     reached [emit] when i.Type == ie.RQI && ok(i.RQI())
 //@     assert [rqi]  len(arg1) == 1 && arg1[0].Type == gtp5gnl.QER_RQI && arg1[0].Value == iface(nl.AttrU8(v))
-//@   at call append#7:
+//@   at call append~QER_PPI:
 //@     reached [emit] when i.Type == ie.PagingPolicyIndicator && ok(i.PagingPolicyIndicator())
 //@     assert [ppi]  len(arg1) == 1 && arg1[0].Type == gtp5gnl.QER_PPI && arg1[0].Value == iface(nl.AttrU8(v))
 //@   at call CreateQEROID:
@@ -402,33 +402,33 @@ package forwarder
 //@   serves C03 C07 C05
 //@   loop range(ies):
 //@     modifies nothing
-//@   at call append#1:
+//@   at call append~QER_CORR_ID:
 //@     reached [emit] when i.Type == ie.QERCorrelationID && ok(i.QERCorrelationID())
 //@     assert [corr] len(arg1) == 1 && arg1[0].Type == gtp5gnl.QER_CORR_ID && arg1[0].Value == iface(nl.AttrU32(v))
-//@   at call append#2:
+//@   at call append~QER_GATE:
 //@     reached [emit] when i.Type == ie.GateStatus && ok(i.GateStatus())
 //@     assert [gate] len(arg1) == 1 && arg1[0].Type == gtp5gnl.QER_GATE && arg1[0].Value == iface(nl.AttrU8(v))
-//@   at call append#3:
+//@   at call append~QER_MBR:
 //@     reached [emit] when i.Type == ie.MBR && ok(i.MBRUL()) && ok(i.MBRDL())
 //@     assert [mbr]  len(arg1) == 1 && arg1[0].Type == gtp5gnl.QER_MBR && typeis(arg1[0].Value, nl.AttrList) && len(arg1[0].Value.(nl.AttrList)) == 4 &&
 //@                   arg1[0].Value.(nl.AttrList)[0].Type == gtp5gnl.QER_MBR_UL_HIGH32 && arg1[0].Value.(nl.AttrList)[0].Value == iface(nl.AttrU32(uint32(ul >> 8))) &&
 //@                   arg1[0].Value.(nl.AttrList)[1].Type == gtp5gnl.QER_MBR_UL_LOW8 && arg1[0].Value.(nl.AttrList)[1].Value == iface(nl.AttrU8(uint8(ul))) &&
 //@                   arg1[0].Value.(nl.AttrList)[2].Type == gtp5gnl.QER_MBR_DL_HIGH32 && arg1[0].Value.(nl.AttrList)[2].Value == iface(nl.AttrU32(uint32(dl >> 8))) &&
 //@                   arg1[0].Value.(nl.AttrList)[3].Type == gtp5gnl.QER_MBR_DL_LOW8 && arg1[0].Value.(nl.AttrList)[3].Value == iface(nl.AttrU8(uint8(dl)))
-//@   at call append#4:
+//@   at call append~QER_GBR:
 //@     reached [emit] when i.Type == ie.GBR && ok(i.GBRUL()) && ok(i.GBRDL())
 //@     assert [gbr]  len(arg1) == 1 && arg1[0].Type == gtp5gnl.QER_GBR && typeis(arg1[0].Value, nl.AttrList) && len(arg1[0].Value.(nl.AttrList)) == 4 &&
 //@                   arg1[0].Value.(nl.AttrList)[0].Type == gtp5gnl.QER_GBR_UL_HIGH32 && arg1[0].Value.(nl.AttrList)[0].Value == iface(nl.AttrU32(uint32(ul >> 8))) &&
 //@                   arg1[0].Value.(nl.AttrList)[1].Type == gtp5gnl.QER_GBR_UL_LOW8 && arg1[0].Value.(nl.AttrList)[1].Value == iface(nl.AttrU8(uint8(ul))) &&
 //@                   arg1[0].Value.(nl.AttrList)[2].Type == gtp5gnl.QER_GBR_DL_HIGH32 && arg1[0].Value.(nl.AttrList)[2].Value == iface(nl.AttrU32(uint32(dl >> 8))) &&
 //@                   arg1[0].Value.(nl.AttrList)[3].Type == gtp5gnl.QER_GBR_DL_LOW8 && arg1[0].Value.(nl.AttrList)[3].Value == iface(nl.AttrU8(uint8(dl)))
-//@   at call append#5:
+//@   at call append~QER_QFI:
 //@     reached [emit] when i.Type == ie.QFI && ok(i.QFI())
 //@     assert [qfi]  len(arg1) == 1 && arg1[0].Type == gtp5gnl.QER_QFI && arg1[0].Value == iface(nl.AttrU8(v))
-//@   at call append#6:
+//@   at call append~QER_RQI:
 //@     reached [emit] when i.Type == ie.RQI && ok(i.RQI())
 //@     assert [rqi]  len(arg1) == 1 && arg1[0].Type == gtp5gnl.QER_RQI && arg1[0].Value == iface(nl.AttrU8(v))
-//@   at call append#7:
+//@   at call append~QER_PPI:
 //@     reached [emit] when i.Type == ie.PagingPolicyIndicator && ok(i.PagingPolicyIndicator())
 //@     assert [ppi]  len(arg1) == 1 && arg1[0].Type == gtp5gnl.QER_PPI && arg1[0].Value == iface(nl.AttrU8(v))
 //@   at call UpdateQEROID:
@@ -446,24 +446,24 @@ package forwarder
 //@     modifies FDSRC, FDDST
 //@   at call newPdi:
 //@     assert [pdi]  arg0 == i
-//@   at call append#1:
+//@   at call append~PDR_PRECEDENCE:
 //@     reached [emit] when i.Type == ie.Precedence && ok(i.Precedence())
 //@     assert [prec] len(arg1) == 1 && arg1[0].Type == gtp5gnl.PDR_PRECEDENCE && arg1[0].Value == iface(nl.AttrU32(v))
-//@   at call append#2:
+//@   at call append~PDR_PDI:
 //@     assert [pdi]  len(arg1) == 1 && arg1[0].Type == gtp5gnl.PDR_PDI && arg1[0].Value == iface(v)
-//@   at call append#3:
+//@   at call append~PDR_OUTER_HEADER_REMOVAL:
 //@     reached [emit] when i.Type == ie.OuterHeaderRemoval && ok(i.OuterHeaderRemovalDescription())
 //@     assert [ohr]  len(arg1) == 1 && arg1[0].Type == gtp5gnl.PDR_OUTER_HEADER_REMOVAL && arg1[0].Value == iface(nl.AttrU8(v))
-//@   at call append#4:
+//@   at call append~PDR_FAR_ID:
 //@     reached [emit] when i.Type == ie.FARID && ok(i.FARID())
 //@     assert [far]  len(arg1) == 1 && arg1[0].Type == gtp5gnl.PDR_FAR_ID && arg1[0].Value == iface(nl.AttrU32(v))
-//@   at call append#5:
+//@   at call append~PDR_QER_ID:
 //@     reached [emit] when i.Type == ie.QERID && ok(i.QERID())
 //@     assert [qer]  len(arg1) == 1 && arg1[0].Type == gtp5gnl.PDR_QER_ID && arg1[0].Value == iface(nl.AttrU32(v))
-//@   at call append#6:
+//@   at call append~PDR_URR_ID:
 //@     reached [emit] when i.Type == ie.URRID && ok(i.URRID())
 //@     assert [urr]  len(arg1) == 1 && arg1[0].Type == gtp5gnl.PDR_URR_ID && arg1[0].Value == iface(nl.AttrU32(v))
-//@   at call append#7:
+//@   at call append~PDR_UNIX_SOCKET_PATH:
 //@     assert [sock] len(arg1) == 1 && arg1[0].Type == gtp5gnl.PDR_UNIX_SOCKET_PATH
 //@   at call CreatePDROID:
 //@     assert [oid]  len(arg2) == 2 && arg2[0] == lSeid && arg2[1] == pdrid && arg3 == attrs
@@ -477,21 +477,21 @@ package forwarder
 //@     modifies FDSRC, FDDST
 //@   at call newPdi:
 //@     assert [pdi]  arg0 == i
-//@   at call append#1:
+//@   at call append~PDR_PRECEDENCE:
 //@     reached [emit] when i.Type == ie.Precedence && ok(i.Precedence())
 //@     assert [prec] len(arg1) == 1 && arg1[0].Type == gtp5gnl.PDR_PRECEDENCE && arg1[0].Value == iface(nl.AttrU32(v))
-//@   at call append#2:
+//@   at call append~PDR_PDI:
 //@     assert [pdi]  len(arg1) == 1 && arg1[0].Type == gtp5gnl.PDR_PDI && arg1[0].Value == iface(v)
-//@   at call append#3:
+//@   at call append~PDR_OUTER_HEADER_REMOVAL:
 //@     reached [emit] when i.Type == ie.OuterHeaderRemoval && ok(i.OuterHeaderRemovalDescription())
 //@     assert [ohr]  len(arg1) == 1 && arg1[0].Type == gtp5gnl.PDR_OUTER_HEADER_REMOVAL && arg1[0].Value == iface(nl.AttrU8(v))
-//@   at call append#4:
+//@   at call append~PDR_FAR_ID:
 //@     reached [emit] when i.Type == ie.FARID && ok(i.FARID())
 //@     assert [far]  len(arg1) == 1 && arg1[0].Type == gtp5gnl.PDR_FAR_ID && arg1[0].Value == iface(nl.AttrU32(v))
-//@   at call append#5:
+//@   at call append~PDR_QER_ID:
 //@     reached [emit] when i.Type == ie.QERID && ok(i.QERID())
 //@     assert [qer]  len(arg1) == 1 && arg1[0].Type == gtp5gnl.PDR_QER_ID && arg1[0].Value == iface(nl.AttrU32(v))
-//@   at call append#6:
+//@   at call append~PDR_URR_ID:
 //@     reached [emit] when i.Type == ie.URRID && ok(i.URRID())
 //@     assert [urr]  len(arg1) == 1 && arg1[0].Type == gtp5gnl.PDR_URR_ID && arg1[0].Value == iface(nl.AttrU32(v))
 //@   at call UpdatePDROID:
@@ -507,20 +507,20 @@ package forwarder
 //@     invariant [sdf] forall j int :: 0 <= j && j < len(sdfIEs) ==> sdfIEs[j] != nil
 //@   loop range(sdfIEs):
 //@     modifies FDSRC, FDDST
-//@   at call append#1:
+//@   at call append~PDI_SRC_INTF:
 //@     reached [emit] when x.Type == ie.SourceInterface && ok(x.SourceInterface())
 //@     assert [srcif] len(arg1) == 1 && arg1[0].Type == gtp5gnl.PDI_SRC_INTF && arg1[0].Value == iface(nl.AttrU8(v))
-//@   at call append#2:
+//@   at call append~PDI_F_TEID:
 //@     reached [emit] when x.Type == ie.FTEID && ok(x.FTEID())
 //@     assert [fteid] len(arg1) == 1 && arg1[0].Type == gtp5gnl.PDI_F_TEID && typeis(arg1[0].Value, nl.AttrList) && len(arg1[0].Value.(nl.AttrList)) == 2 &&
 //@                    arg1[0].Value.(nl.AttrList)[0].Type == gtp5gnl.F_TEID_I_TEID && arg1[0].Value.(nl.AttrList)[0].Value == iface(nl.AttrU32(v.TEID)) &&
 //@                    arg1[0].Value.(nl.AttrList)[1].Type == gtp5gnl.F_TEID_GTPU_ADDR_IPV4 && arg1[0].Value.(nl.AttrList)[1].Value == iface(nl.AttrBytes(v.IPv4Address))
-//@   at call append#3:
+//@   at call append~PDI_UE_ADDR_IPV4:
 //@     reached [emit] when x.Type == ie.UEIPAddress && ok(x.UEIPAddress())
 //@     assert [ueip]  len(arg1) == 1 && arg1[0].Type == gtp5gnl.PDI_UE_ADDR_IPV4 && arg1[0].Value == iface(nl.AttrBytes(v.IPv4Address))
 //@   at call newSdfFilter:
 //@     assert [swap]  arg0 == x && arg1 == srcIf
-//@   at call append#5:
+//@   at call append~PDI_SDF_FILTER:
 //@     assert [sdf]   len(arg1) == 1 && arg1[0].Type == gtp5gnl.PDI_SDF_FILTER && arg1[0].Value == iface(v)
 
 //@ func (g *Gtp5g) newForwardingParameter(ies []*ie.IE) (attrs nl.AttrList, err error)
@@ -530,24 +530,24 @@ package forwarder
 //@   serves C02 C07
 //@   loop range(ies):
 //@     modifies nothing
-//@   at call append#1:
+//@   at call append~OUTER_HEADER_CREATION_DESCRIPTION:
 //@     reached [emit] when x.Type == ie.OuterHeaderCreation && ok(x.OuterHeaderCreation())
 //@     assert [desc] len(arg1) == 1 && arg1[0].Type == gtp5gnl.OUTER_HEADER_CREATION_DESCRIPTION && arg1[0].Value == iface(nl.AttrU16(v.OuterHeaderCreationDescription))
-//@   at call append#2:
+//@   at call append~OUTER_HEADER_CREATION_O_TEID:
 //@     assert [teid] len(arg1) == 1 && arg1[0].Type == gtp5gnl.OUTER_HEADER_CREATION_O_TEID && arg1[0].Value == iface(nl.AttrU32(v.TEID))
-//@   at call append#3:
+//@   at call append~OUTER_HEADER_CREATION_PORT#1:
 //@     assert [gtpport] len(arg1) == 1 && arg1[0].Type == gtp5gnl.OUTER_HEADER_CREATION_PORT && arg1[0].Value == iface(nl.AttrU16(2152))
-//@   at call append#4:
+//@   at call append~OUTER_HEADER_CREATION_PORT#2:
 //@     assert [port] len(arg1) == 1 && arg1[0].Type == gtp5gnl.OUTER_HEADER_CREATION_PORT && arg1[0].Value == iface(nl.AttrU16(v.PortNumber))
-//@   at call append#5:
+//@   at call append~OUTER_HEADER_CREATION_PEER_ADDR_IPV4:
 //@     assert [peer] len(arg1) == 1 && arg1[0].Type == gtp5gnl.OUTER_HEADER_CREATION_PEER_ADDR_IPV4 && arg1[0].Value == iface(nl.AttrBytes(v.IPv4Address))
-//@   at call append#6:
+//@   at call append~FORWARDING_PARAMETER_OUTER_HEADER_CREATION:
 //@     reached [emit] when x.Type == ie.OuterHeaderCreation && ok(x.OuterHeaderCreation())
-//@     assert [ohc]  len(arg1) == 1 && arg1[0].Type == gtp5gnl.FORWARDING_PARAMETER_OUTER_HEADER_CREATION && arg1[0].Value == iface(hc)
-//@   at call append#7:
+//@     assert [ohc]  len(arg1) == 1 && arg1[0].Type == gtp5gnl.FORWARDING_PARAMETER_OUTER_HEADER_CREATION && typeis(arg1[0].Value, nl.AttrList) && len(arg1[0].Value.(nl.AttrList)) >= 2
+//@   at call append~FORWARDING_PARAMETER_FORWARDING_POLICY:
 //@     reached [emit] when x.Type == ie.ForwardingPolicy && ok(x.ForwardingPolicyIdentifier())
 //@     assert [policy] len(arg1) == 1 && arg1[0].Type == gtp5gnl.FORWARDING_PARAMETER_FORWARDING_POLICY && arg1[0].Value == iface(nl.AttrString(v))
-//@   at call append#8:
+//@   at call append~FORWARDING_PARAMETER_PFCPSM_REQ_FLAGS:
 //@     reached [emit] when x.Type == ie.PFCPSMReqFlags && ok(x.PFCPSMReqFlags())
 //@     assert [smreq] len(arg1) == 1 && arg1[0].Type == gtp5gnl.FORWARDING_PARAMETER_PFCPSM_REQ_FLAGS && arg1[0].Value == iface(nl.AttrU8(v))
 
@@ -560,11 +560,11 @@ package forwarder
 //@     modifies nothing
 //@   at call newForwardingParameter:
 //@     assert [fp]   arg0 == xs
-//@   at call append#1:
+//@   at call append~FAR_APPLY_ACTION:
 //@     assert [act]  len(arg1) == 1 && arg1[0].Type == gtp5gnl.FAR_APPLY_ACTION && arg1[0].Value == iface(nl.AttrU16(act.Flags))
-//@   at call append#2:
+//@   at call append~FAR_FORWARDING_PARAMETER:
 //@     assert [fp]   len(arg1) == 1 && arg1[0].Type == gtp5gnl.FAR_FORWARDING_PARAMETER && arg1[0].Value == iface(v)
-//@   at call append#3:
+//@   at call append~FAR_BAR_ID:
 //@     reached [emit] when i.Type == ie.BARID && ok(i.BARID())
 //@     assert [bar]  len(arg1) == 1 && arg1[0].Type == gtp5gnl.FAR_BAR_ID && arg1[0].Value == iface(nl.AttrU8(v))
 //@   at call CreateFAROID:
@@ -669,29 +669,29 @@ package forwarder
 //@     set FDDST := ret0.Dst
 //@   at call ParseFlowDesc:
 //@     assert [arg]    arg0 == s
-//@   at call append#1:
+//@   at call append~FLOW_DESCRIPTION_ACTION:
 //@     assert [action] len(arg1) == 1 && arg1[0].Type == gtp5gnl.FLOW_DESCRIPTION_ACTION && arg1[0].Value == iface(nl.AttrU8(gtp5gnl.SDF_FILTER_PERMIT)) && fd.Action == "permit"
-//@   at call append#2:
+//@   at call append~FLOW_DESCRIPTION_DIRECTION#1:
 //@     assert [in]     len(arg1) == 1 && arg1[0].Type == gtp5gnl.FLOW_DESCRIPTION_DIRECTION && arg1[0].Value == iface(nl.AttrU8(gtp5gnl.SDF_FILTER_IN)) && fd.Dir == "in"
-//@   at call append#3:
+//@   at call append~FLOW_DESCRIPTION_DIRECTION#2:
 //@     assert [out]    len(arg1) == 1 && arg1[0].Type == gtp5gnl.FLOW_DESCRIPTION_DIRECTION && arg1[0].Value == iface(nl.AttrU8(gtp5gnl.SDF_FILTER_OUT)) && fd.Dir == "out"
-//@   at call append#4:
+//@   at call append~FLOW_DESCRIPTION_PROTOCOL:
 //@     assert [proto]  len(arg1) == 1 && arg1[0].Type == gtp5gnl.FLOW_DESCRIPTION_PROTOCOL && arg1[0].Value == iface(nl.AttrU8(fd.Proto))
-//@   at call append#5:
+//@   at call append~FLOW_DESCRIPTION_SRC_IPV4:
 //@     assert [srcip]  len(arg1) == 1 && arg1[0].Type == gtp5gnl.FLOW_DESCRIPTION_SRC_IPV4 && fd.Src == ite(swapSrcDst, FDDST, FDSRC) && arg1[0].Value == iface(nl.AttrBytes(fd.Src.IP))
-//@   at call append#6:
+//@   at call append~FLOW_DESCRIPTION_SRC_MASK:
 //@     assert [srcmsk] len(arg1) == 1 && arg1[0].Type == gtp5gnl.FLOW_DESCRIPTION_SRC_MASK && arg1[0].Value == iface(nl.AttrBytes(fd.Src.Mask))
-//@   at call append#7:
+//@   at call append~FLOW_DESCRIPTION_DEST_IPV4:
 //@     assert [dstip]  len(arg1) == 1 && arg1[0].Type == gtp5gnl.FLOW_DESCRIPTION_DEST_IPV4 && fd.Dst == ite(swapSrcDst, FDSRC, FDDST) && arg1[0].Value == iface(nl.AttrBytes(fd.Dst.IP))
-//@   at call append#8:
+//@   at call append~FLOW_DESCRIPTION_DEST_MASK:
 //@     assert [dstmsk] len(arg1) == 1 && arg1[0].Type == gtp5gnl.FLOW_DESCRIPTION_DEST_MASK && arg1[0].Value == iface(nl.AttrBytes(fd.Dst.Mask))
 //@   at call convertSlice#1:
 //@     assert [sports] arg0 == fd.SrcPorts
-//@   at call append#9:
+//@   at call append~FLOW_DESCRIPTION_SRC_PORT:
 //@     assert [sport]  len(arg1) == 1 && arg1[0].Type == gtp5gnl.FLOW_DESCRIPTION_SRC_PORT
 //@   at call convertSlice#2:
 //@     assert [dports] arg0 == fd.DstPorts
-//@   at call append#10:
+//@   at call append~FLOW_DESCRIPTION_DEST_PORT:
 //@     assert [dport]  len(arg1) == 1 && arg1[0].Type == gtp5gnl.FLOW_DESCRIPTION_DEST_PORT
 
 // ---------------------------------------------------------------------------------------------
